@@ -191,7 +191,9 @@ func runC03Live(c C03LiveCase) *pOutcome {
 		return out
 	}
 	if len(dl.done) < want {
-		out.Failure = pFail("HARNESS", "live-timeout", 0, "%d of %d deliveries completed within the budget", len(dl.done), want)
+		// a time budget overrun is inconclusive for this case, never a verdict
+		out.Skipped = fmt.Sprintf("live budget: %d of %d deliveries completed within 30s", len(dl.done), want)
+		out.label("inconclusive-time-budget")
 		return out
 	}
 	if c.Concurrency >= 2 {
